@@ -302,7 +302,7 @@ func c06Run(c *Ctx) {
 	c.S.Assumptions = []string{"top-level null: nil or empty Map accepted"}
 	n, k := 4, 5
 	if c.Thorough {
-		n, k = 5, 6
+		n, k = 5, 7
 	}
 	indents := [][2]string{{"", "  "}, {"", "\t"}, {" ", " "}, {"", ""}}
 	encOne := func(mk func() map[string]interface{}) {
